@@ -4,6 +4,8 @@ Snapshot contract with two independent parsers: the output of both exporters mus
 the general exporter's output is re-imported (raw mode) and compared field by field with the tree, the EML exporter's
 output is re-parsed by expat and compared on names, attributes, order and text.
 """
+import re
+
 from lxml import etree
 
 from vlib import emlkit, snapshot, treegen, xmlgen
@@ -259,7 +261,8 @@ def vocabulary_content_sweep(ctx):
     from vlib import domain
     from vlib.emlkit import mrule
     words = [w for w in domain.CONTENT_WORDS if not any(x in w for x in ("&amp;", "&lt;", "&gt;", "<para>", "\r"))]   # (carriage returns are outside the quantifier)
-    for i, e in enumerate(mrule.node_names()):
+    legal = [x for x in list(treegen.FOREIGN_NAMES) + treegen.unmodelled_eml_names() if x and re.fullmatch(r"[A-Za-z_][A-Za-z0-9_.-]*", x)]
+    for i, e in enumerate(list(mrule.node_names()) + legal):
         for w in words[i % 3::3]:
             n = Node(e, content=w)
             ctx.case(judge_general, ctx, n)
